@@ -36,7 +36,7 @@ def shards(tier):
 def required_counters(tier):
     return {'judged:operator-consistency': 200, 'judged:construction': 200, 'judged:mask-placement': 100, 'judged:commute-rotate': 50,
             'judged:commute-to_sky': 50, 'judged:annulus-membership': 100, 'judged:annulus-area': 50,
-            'monitor:contains:CompoundPixelRegion': 100, 'monitor:to_mask:CompoundPixelRegion:center': 50, 'judged:sky-compound-contains': 20}
+            'monitor:contains:CompoundPixelRegion': 100, 'monitor:to_mask:CompoundPixelRegion:center': 50, 'judged:sky-compound-contains': 20, 'history-steps': 30}
 
 
 def setup(obs):
@@ -240,6 +240,17 @@ def run_annulus(case, obs):
     import regions
     from regions import PixCoord
     ann = S.build(case['region'])
+    if case['q']['rs'] % 2:
+        # query, edit the same object, then judge: the annulus must follow its current parameters
+        prng = random.Random(case['q']['rs'])
+        ann.contains(c01.make_queries(ann, case['q']))
+        try:
+            ann.to_mask(mode='center') if ann.bounding_box.shape[0] * ann.bounding_box.shape[1] < 40000 else None
+        except Exception:
+            raise
+        for _ in range(prng.randint(1, 3)):
+            gen.mutate_live(ann, prng)
+            obs.count('history-steps')
     name = type(ann).__name__
     # components built independently by the harness (fresh objects, no shared meta)
     c = PixCoord(ann.center.x, ann.center.y)
